@@ -241,10 +241,11 @@ impl Property for C09 {
             mag1 = abs_add(&mag1, &abs_mul(&abs_var(w), &abs_mul(&ga1, &ga1)));
             nterms += raw_terms(&g).len().pow(2);
         }
-        let Some(obj) = &pi.objective else {
-            return fail("C09/objective-missing", ctxmsg("parametric instance has no objective".into()));
-        };
-        let got = Poly::from_function(obj);
+        // an absent objective is the zero function (as everywhere in the SDK)
+        if pi.objective.is_none() {
+            ctx.label("objective-absent-in-the-result");
+        }
+        let got = Poly::from_opt_function(&pi.objective);
         if let Err(e) = compare_poly(&got, &exact, regime == Regime::Dyadic, &mag, &mag1, 8 * (nterms + 16), 8.0 * (nterms as f64 + 4.0)) {
             return fail("C09/objective", ctxmsg(format!("objective is not f + sum w g^2: {e}")));
         }
